@@ -354,7 +354,11 @@ def written_lvalues(n):
             _nonconst_args(n, out)
     elif k == "CXXMemberCallExpr":
         info = n.callee_info
-        if not info.get("const") and not info.get("static") and n.c:
+        ret = (info.get("ret") or "").rstrip()
+        accessor = ret.endswith("&") and not ret.startswith("const ") and len(n.c) == 1
+        # an argument-less non-const method returning a reference (e.g. Bin::view_num()) is an lvalue accessor: evaluating
+        # it writes nothing; a write through the returned reference is seen at the enclosing assignment / call
+        if not info.get("const") and not info.get("static") and n.c and not accessor:
             out.append(n.c[0])
         _nonconst_args(n, out)
     elif k in ("CallExpr", "CXXConstructExpr", "CXXTemporaryObjectExpr"):
@@ -419,6 +423,8 @@ def _nonconst_args(n, out):
     if n.k == "CXXOperatorCallExpr" and not info.get("cls"):
         args = n.c
     for idx, a in enumerate(args):
+        if idx >= len(sig) and info.get("qn"):
+            continue  # extra arguments of a resolved variadic function (printf) are passed by value
         t = sig[idx].strip() if idx < len(sig) else "&"
         if t.endswith("&&"):
             continue
